@@ -2,6 +2,8 @@
 import itertools, random, re
 from clustergen import *
 from nodegen import parse_i32
+from common import build_binary
+import realcluster
 
 ID = "C05"
 DRIVER = "cluster"
@@ -70,9 +72,113 @@ def word_suffix(b, a):
     return any(b == " ".join(w[k:]) for k in range(1, len(w) + 1))
 
 
+def driver_of(case):
+    return "realcluster" if case[0].startswith("b") else "cluster"
+
+
+def impl_runner_for(drv):
+    if drv != "realcluster":
+        return None
+
+    def run(cases, ctx, rundir):
+        rc, out, binary = build_binary()
+        if rc != 0:
+            return {}, ["the nun-db binary does not build: %s" % out[-600:]]
+        return realcluster.run_cases(cases, binary, rundir)
+    return run
+
+
+def model_driver_of(drv):
+    return "cluster"
+
+
+def reduce_model(case, drv, obs):
+    return realcluster.reduce_model(case, obs) if drv == "realcluster" else obs
+
+
+ITEM_RE = re.compile(r"db=(\S+) keys=\[(.*?)\](?= db=|$)")
+
+
+def reconcile(case, drv, iobs, mobs):
+    """real processes: the joiner also opens a link to itself and asks itself for a synchronisation (set-secoundary +
+    replicate-since on the self link); whether that request is served before or after the primary's lines arrive is a race
+    of a few milliseconds between two link threads.  Served after, every key the joiner holds at that moment goes through
+    one more catch-up line (first word taken for the version, version + 1).  The model's settle policy serves it first;
+    a joiner line that differs from the model's exactly by that extra step on some keys is rewritten to the model's."""
+    if drv != "realcluster":
+        return iobs, []
+    notes = []
+    out = []
+    mby = {l.split(" ")[1]: l for l in mobs if l.startswith("N ")}
+    for l in iobs:
+        t = l.split(" ")
+        if not l.startswith("N ") or t[1] == "n1" or t[1] not in mby or l == mby[t[1]]:
+            out.append(l); continue
+        ml = mby[t[1]]
+        idbs = {m.group(1): m.group(2) for m in ITEM_RE.finditer(l)}
+        mdbs = {m.group(1): m.group(2) for m in ITEM_RE.finditer(ml)}
+        new = l
+        ok = set(idbs) == set(mdbs) and l.split(" db=")[0] == ml.split(" db=")[0]
+        if ok:
+            for dbn in idbs:
+                ii = dict(x.split("=", 1) for x in idbs[dbn].split(",") if x)
+                mm = dict(x.split("=", 1) for x in mdbs[dbn].split(",") if x)
+                if set(ii) != set(mm):
+                    ok = False; break
+                for k in ii:
+                    if ii[k] == mm[k]:
+                        continue
+                    mv, mver = mm[k].rsplit("@", 1)
+                    rest = mangle(unesc(mv))[0]
+                    again = "%s@%d" % (realcluster.escv(rest.encode("utf-8")), int(mver) + 1)
+                    if ii[k] == again:
+                        notes.append("#self-sync-after-primary-sync %s %s/%s" % (t[1], dbn, k))
+                    else:
+                        ok = False; break
+                if not ok:
+                    break
+        out.append(ml if ok else l)
+    return out, notes
+
+
+def real_cases(tier, rng, dist):
+    """real processes: the primary is the real binary with a history, a second real binary with an empty disk joins it
+    through NUN_REPLICATE_ADDR (main.rs's own join, the real TCP links and handshake), further writes follow; the final
+    data of both processes, read over TCP, is compared with the model's"""
+    out = []
+    n = {"quick": 32, "thorough": 400, "search": 16}[tier]
+    for i in range(n):
+        hdr = ["n1/P/100", "n2/U/200"]
+        ops = [["conn", "n1"], ["conn", "n1"], CC("n1", 0, "auth nun pwd")]
+        ndb = rng.randint(1, 2)
+        for j in range(ndb):
+            ops.append(CC("n1", 0, "create-db d%d tok%d%s" % (j + 1, j + 1, rng.choice(["", " newer", " none"]))))
+        ops.append(CC("n1", 0, "use-db d1 tok1")); ops.append(CC("n1", 1, "use-db d%d tok%d" % (ndb, ndb)))
+
+        def rand_write():
+            r = rng.random()
+            k = rng.choice(["a", "b", "c"])
+            sid = rng.choice([0, 1])
+            v = rng.choice([x for x in VALS if x != ""])
+            if r < 0.6: return [CC("n1", sid, "set %s %s" % (k, v))]
+            if r < 0.75: return [CC("n1", sid, "remove %s" % k)]
+            if r < 0.85: return [CC("n1", sid, "increment n %d" % rng.randint(1, 4))]
+            return [CC("n1", sid, "set-safe %s %d %s" % (k, rng.choice([-1, 0, 3]), v))]
+        for _ in range(rng.randint(1, 8)):
+            ops += rand_write()
+        ops += [["settle"], ["addsec", "n1", "n2"], ["settle"]]
+        for _ in range(rng.randint(0, 4)):
+            ops += rand_write()
+        ops += [["settle"]]
+        out.append(("b%d" % i, hdr, ops))
+    dist["real_processes"] = n
+    return out
+
+
 def gen_cases(tier, seed):
     rng = random.Random(seed)
     cases, dist = [], {"single_key": 0, "random": 0, "values": {}}
+    cases += real_cases(tier, random.Random(seed + 11), dist)
     n = {"quick": 400, "thorough": 8000, "search": 400}[tier]
     cid = 0
     for strat in ("none", "newer", "arbiter"):
@@ -193,7 +299,19 @@ def away_written(case):
     return out
 
 
+def real_oracle(case, io, mo):
+    fails = []
+    for l in io["obs"]:
+        if not l.startswith("N "):
+            fails.append(("real-run-failed", l[:200]))
+    if any("DEAD" in l for l in io["obs"] if l.startswith("N ")):
+        fails.append(("process-died", "a node process exited"))
+    return fails
+
+
 def oracle(case, io, mo):
+    if case[0].startswith("b"):
+        return real_oracle(case, io, mo)
     global MANGLED
     if MANGLED is None:
         MANGLED = {mangle(v)[0] for v in VALS}
@@ -251,6 +369,8 @@ def oracle(case, io, mo):
 
 
 def nontrivial(case, io):
+    if case[0].startswith("b"):
+        return any(l.startswith("N n2 ") and "=" in l.split("keys=[", 1)[-1] for l in io["obs"])
     obs = split_obs(io)
     nodes = parse_dump(obs[-1][3]) if obs else {}
     p = nodes.get("n1")
